@@ -55,6 +55,11 @@ def pairsJson (l : List (EName × EName)) : Json :=
 def enumsJson (l : List (EName × Int)) : Json :=
   Json.arr (l.map (fun p => Json.arr #[str p.1, toJson p.2])).toArray
 
+def showStr : Shown → String
+  | .name n => "name " ++ String.ofList n
+  | .number v => "num " ++ toString v
+  | .byte b => "byte " ++ toString b
+
 def handleEnum (j : Json) : Except String Json := do
   let d ← getDef j
   let qn ← (← (← j.getObjVal? "q_names").getArr?).toList.mapM
@@ -81,7 +86,7 @@ def handleEnum (j : Json) : Except String Json := do
         ("from_name", Json.arr (qn.map (fun s => optInt (g.cppFromName es s))).toArray),
         ("to_name", Json.arr (qv.map (fun v => optName (g.cppToName es v))).toArray),
         ("is_known", Json.arr (qv.map (fun v => toJson (g.cppIsKnown es v))).toArray),
-        ("show", Json.arr (qv.map (fun v => Json.str (g.cppShow es v))).toArray)])
+        ("show", Json.arr (qv.map (fun v => Json.str (showStr (g.cppShow es v)))).toArray)])
 
 def bit (s : String) : Option Bool :=
   if s == "1" then some true else if s == "0" then some false else none
